@@ -43,6 +43,12 @@ asynconn.select = simnet.select_shim
 discovery.socket = simnet.socket_shim
 frappy.secnode.get_version = lambda *a: 'sim'
 discovery.get_version = lambda *a: 'sim'
+import frappy.protocol.interface.tcp as _tcpiface  # noqa: E402
+from sim import tcpserver as simtcpserver  # noqa: E402
+# the TCP interface of a node binds and accepts on the simulated network; DualStackTCPServer was derived from the
+# real socketserver class at import time: give it the simulated base class
+_tcpiface.socketserver = simtcpserver.shim
+_tcpiface.DualStackTCPServer.__bases__ = (simtcpserver.ThreadingTCPServer,)
 frappy.server.signal = types.SimpleNamespace(
     signal=lambda *a: None, SIGINT=2, SIGTERM=15, default_int_handler=lambda *a: None)
 mlzlog.setLoggerClass(mlzlog.MLZLogger)
